@@ -6,7 +6,9 @@ import (
 	"flag"
 	"fmt"
 	"os"
+	"runtime/debug"
 	"sort"
+	"strings"
 
 	"vh/internal/vh"
 )
@@ -14,6 +16,48 @@ import (
 type propFn func(a vh.Args, o *vh.Oracle, r *vh.Result) error
 
 var props = map[string]propFn{}
+
+// runProp runs the property's harness. A panic on the calling goroutine whose innermost
+// non-runtime frame is in the implementation is a failure of the implementation on the case that
+// was running (Result.Running); any other panic is a harness error.
+func runProp(f propFn, a vh.Args, o *vh.Oracle, r *vh.Result) (err error) {
+	defer func() {
+		p := recover()
+		if p == nil {
+			return
+		}
+		stack := string(debug.Stack())
+		inImpl := false
+		lines := strings.Split(stack, "\n")
+		seenPanic := false
+		var short []string
+		for _, l := range lines {
+			if strings.HasPrefix(l, "panic(") {
+				seenPanic = true
+				continue
+			}
+			if !seenPanic || strings.HasPrefix(l, "\t") {
+				continue
+			}
+			if strings.HasPrefix(l, "runtime.") {
+				continue
+			}
+			if len(short) == 0 {
+				inImpl = strings.HasPrefix(l, "github.com/folbricht/desync.") || strings.HasPrefix(l, "github.com/folbricht/desync/")
+			}
+			if len(short) < 6 {
+				short = append(short, l)
+			}
+		}
+		msg := fmt.Sprintf("%v; frames: %s", p, strings.Join(short, " <- "))
+		if inImpl && r.Current() != nil {
+			r.Fail("predicate", "panic", "the implementation panicked on this case: "+msg, r.Current())
+			return
+		}
+		r.Fail("harness", "harness-error", "panic: "+msg, r.Current())
+	}()
+	return f(a, o, r)
+}
 
 func main() {
 	if len(os.Args) < 2 {
@@ -57,7 +101,7 @@ func main() {
 		defer o.Close()
 	}
 	r := vh.NewResult(prop, a.Tier, a.Seed)
-	err = f(a, o, r)
+	err = runProp(f, a, o, r)
 	if o != nil {
 		r.OracleCalls = o.N
 	}
